@@ -74,7 +74,9 @@ def evaluate(spec, wd):
     sclean = strategies.strip_meta(spec)
     h = spec_hash(sclean)
     classes = strategies.expr_classes(spec)
-    st_ = ["float64", "float64", "float32"][spec["data_seed"] % 3]
+    # expressions are compiled for all four scalar types (C09 covers forms only); complex types get complex data
+    st_ = ["float64", "float64", "float32", "complex128", "complex64"][spec["data_seed"] % 5]
+    classes.append("scalar:" + st_)
     built = specs.build(sclean)
     expr, pts = built.obj
     sample = {"spec": sclean, "ufl": specs._src(sclean["e"])[:300]}
@@ -121,7 +123,7 @@ def evaluate(spec, wd):
     ndofs = args[0].ufl_function_space().ufl_element().dim if args else None
     ncomp = int(np.prod(expr.ufl_shape)) if expr.ufl_shape else 1
     A_shape = (pts.shape[0], ncomp) + ((ndofs,) if ndofs is not None else ())
-    complex_ = False
+    complex_ = "complex" in st_
     nfac = formcheck.entity_count(cell, "exterior_facet") if facet else 1
     fcell = {"triangle": "interval", "quadrilateral": "interval", "tetrahedron": "triangle", "hexahedron": "quadrilateral"}.get(cell)
     syms = facet_symmetries(fcell) if facet else [("id", 0, None)]
